@@ -215,6 +215,12 @@ def programs(tier):
                  'targ:\tnop\n\tjr z,targ\n\tret\n', '\tjr nz,targ\n\tnop\ntarg:\tret\n', '\tld a,(40h)\n\tret\n\tdb 1,2\n',
                  'targ:' + '\tnop\n' * 126 + '\tjr z,targ\n\tret\n', '\tjr z,targ\n' + '\tnop\n' * 127 + 'targ:\tret\n'):
         yield {'k': 'prog', 'cpu': '87C00', 'src': '\torg 256\n' + body, 'tag': body.replace('\n', ' / ').replace('\t', ' ')}
+    # what stands behind a return is not reached through it: bytes there that look like a jump out of the image must not be followed
+    for ret in ('ret', 'reti', 'retn'):
+        yield {'k': 'prog', 'cpu': '87C00', 'src': '\torg 256\n\tinc a\n\t%s\n\tjp 1234h\n\tcall 2345h\n' % ret, 'tag': 'unreachable jump behind %s' % ret}
+    yield {'k': 'prog', 'cpu': '6800', 'src': '\torg $100\n\tinx\n\trts\n\tjmp $1234\n', 'tag': 'unreachable jump behind rts'}
+    yield {'k': 'prog', 'cpu': '6800', 'src': '\torg $100\n\tinx\n\trti\n\tjsr $1234\n', 'tag': 'unreachable call behind rti'}
+    yield {'k': 'prog', 'cpu': '4004', 'src': '\torg 256\n\tiac\n\tbbl 1\n\tjun 0e00h\n', 'tag': 'unreachable jump behind bbl'}
     # 87C00 register-relative operands at both ends of the signed displacement byte
     for d in (-128, -127, -1, 0, 1, 126, 127):
         for form in ('ld a,(hl%+d)', 'inc (hl%+d)', 'ld (hl%+d),a', 'ld a,(ix%+d)', 'ld (iy%+d),a', 'dec (ix%+d)', 'ld a,(sp%+d)', 'cmp a,(hl%+d)', 'ld wa,(ix%+d)'):
